@@ -1,11 +1,12 @@
 import ReplicatProofs.Lemmas.ChunkerLocal
 import ReplicatProofs.Lemmas.ChunkerSyncBlocks
+import ReplicatProofs.Lemmas.ChunkerSyncHist
 import ReplicatModel.Clmul
 import ReplicatProofs.Properties.C10
 /-!
 # C11 — chunk boundaries are content-defined and re-synchronise after edits
 
-Property theorems only (helper lemmas: `Lemmas/ChunkerLocal.lean`, `Lemmas/ChunkerSyncBlocks.lean`).  Every statement holds for every hash function `h`
+Property theorems only (helper lemmas: `Lemmas/ChunkerLocal.lean`, `Lemmas/ChunkerSyncBlocks.lean`, `Lemmas/ChunkerSyncHist.lean`).  Every statement holds for every hash function `h`
 (hence every 16-byte key), every valid parameter pair and every segmentation of the streams into pieces.
 
 `greedyFull p h S` is the segmentation-independent chunking of `S` by main-rule cuts while at least `2·max` bytes
@@ -284,6 +285,97 @@ theorem shared_segment_sync (p : CParams) (hv : p.valid) (h : Hash) (piecesA pie
   · exact Or.inl hor
   · right; left; simpa using lA
   · right; right; simpa using lB
+
+/-! ## no cut is computed from earlier chunks (low-entropy content: runs of identical data) -/
+
+/-- **adapter_cuts_native_only.** The code's loop takes every cut position from `next_cut` on the current buffer: the extractor
+finds no value that reaches a slice bound of the reassembly buffer other than `<chunker>.next_cut(<that buffer>, …)`
+(`Gen.adapterCutsNotFromNextCut = []`, `Gen.adapterNextCutOnCurrentBuffer`), so the loop with "whatever rule the Python code
+evaluates before `next_cut`" (`chunkAllH … (adapterRule unknown)`, for EVERY `unknown`) is the model's `chunkAll`, and every
+theorem of this file speaks about it.  An edit that computes a cut in Python (a remembered length, "the run of identical data
+goes on", a counter) makes this stop compiling; the harness then searches on low-entropy streams (runs of one byte and periodic
+data of every length class around `max + min` and `2·max`, followed by ordinary data) by re-chunking every stream from its own
+boundaries. -/
+theorem adapter_cuts_native_only (unknown : PyRule) (p : CParams) (h : Hash) (pieces : List Bytes) :
+    chunkAllH p h (adapterRule unknown) pieces = chunkAll p h pieces := by
+  rw [adapterRule_eq unknown]
+  exact chunkAllH_agrees (noPyRule_agrees p h) pieces
+
+/-- What a fast path may do: a rule evaluated in the loop — whatever it remembers about earlier chunks — is harmless iff each of
+its answers is what `next_cut` answers on the same buffer and finality (for instance a correct memo of `next_cut`). -/
+theorem agreeing_rule_harmless (p : CParams) (h : Hash) (rule : PyRule)
+    (hr : ∀ (prev : Option Bytes) (buf : Bytes) (final : Bool) (pos : Nat), rule prev buf final = some pos → nextCut p h buf final = some pos)
+    (pieces : List Bytes) : chunkAllH p h rule pieces = chunkAll p h pieces :=
+  chunkAllH_agrees hr pieces
+
+/-- **rechunk_from_boundary** — the direct oracle's statement.  Re-chunking a stream from any of its own boundaries `b` (the rest
+of the stream handed over again, in any segmentation, to the loop as the code runs it) reproduces the chunks after `b` up to the
+tail zone: cuts after a boundary are a function of the content after that boundary, never of the chunks before it. -/
+theorem rechunk_from_boundary (unknown : PyRule) (p : CParams) (hv : p.valid) (h : Hash) (pieces pieces' : List Bytes)
+    (pre post cs' : List Bytes)
+    (hc : chunkAllH p h (adapterRule unknown) pieces = some (pre ++ post))
+    (hs : pieces'.flatten = pieces.flatten.drop pre.flatten.length)
+    (hc' : chunkAllH p h (adapterRule unknown) pieces' = some cs') :
+    ∃ g tail tail', post = g ++ tail ∧ cs' = g ++ tail' ∧ pieces'.flatten.length < g.flatten.length + 2 * p.max := by
+  rw [adapter_cuts_native_only] at hc hc'
+  obtain ⟨g, tail, hg, hpost, _, _⟩ := restart_at_boundary p hv h pieces pre post hc
+  obtain ⟨g', tail', hg', hcs', hcov⟩ := chunk_split_indep p hv h pieces' cs' hc'
+  rw [hs, hg] at hg'
+  simp only [Option.some.injEq] at hg'
+  subst hg'
+  exact ⟨g, tail, tail', hpost, hcs', hcov⟩
+
+/-- The same for a WINDOW of the rest (what the harness does on multi-megabyte streams): re-chunking only the `K` bytes after the
+boundary reproduces the chunks after it until less than `2·max` bytes of the window (or of the stream) are left. -/
+theorem rechunk_window_from_boundary (unknown : PyRule) (p : CParams) (hv : p.valid) (h : Hash) (pieces pieces' : List Bytes)
+    (pre post cs' : List Bytes) (K : Nat)
+    (hc : chunkAllH p h (adapterRule unknown) pieces = some (pre ++ post))
+    (hs : pieces'.flatten = (pieces.flatten.drop pre.flatten.length).take K)
+    (hc' : chunkAllH p h (adapterRule unknown) pieces' = some cs') :
+    ∃ common ra rb, post = common ++ ra ∧ cs' = common ++ rb ∧
+      (pieces'.flatten.length < common.flatten.length + 2 * p.max ∨
+       pieces.flatten.length - pre.flatten.length < common.flatten.length + 2 * p.max) := by
+  rw [adapter_cuts_native_only] at hc hc'
+  have hloss := C10.chunk_lossless p hv h pieces _ hc
+  have hle : pre.flatten.length ≤ pieces.flatten.length := by
+    rw [← hloss, List.flatten_append, List.length_append]; omega
+  have hA : pieces.flatten = pieces.flatten.take pre.flatten.length ++ pieces'.flatten ++
+      (pieces.flatten.drop pre.flatten.length).drop K := by
+    rw [hs, List.append_assoc, List.take_append_drop, List.take_append_drop]
+  have hB : pieces'.flatten = [] ++ pieces'.flatten ++ [] := by simp
+  obtain ⟨common, ra, rb, h1, h2, _, hor⟩ :=
+    shared_segment_sync p hv h pieces pieces' (pieces.flatten.take pre.flatten.length) ((pieces.flatten.drop pre.flatten.length).drop K)
+      [] [] pieces'.flatten hA hB pre post [] cs' hc (by simpa using hc') 0 (Nat.zero_le _)
+      (by rw [List.length_take]; omega) (by simp)
+  refine ⟨common, ra, rb, h1, h2, ?_⟩
+  have hc4 := valid_ceil_le hv
+  have hlen : pieces'.flatten.length + ((pieces.flatten.drop pre.flatten.length).drop K).length =
+      pieces.flatten.length - pre.flatten.length := by
+    rw [hs]; simp only [List.length_take, List.length_drop]; omega
+  simp only [List.length_nil, Nat.add_zero, Nat.sub_zero] at hor
+  rcases hor with hor | hor | hor
+  · left; omega
+  · right; omega
+  · left; exact hor
+
+/-- Why the cut must come from `next_cut` on the current buffer: the "run of identical data" fast path (`repeatForced`: after a
+forced cut, if the buffer starts with the same bytes again, cut at the forced length again) equals the native rule while the
+whole scan window is uniform, but at the END of a run it keeps cutting `ceil4 min` pieces where the native rule picks the hash
+maximum in the data that follows.  Stream: 24 zero bytes, then 56 ordinary bytes; `16` is a boundary of both loops.  The
+fast-path loop cuts `4, 4, 8, …` after it, but re-chunking the same loop from that boundary gives `12, 12, 8, …` (first chunk after
+the boundary, 64 bytes before the end; tail zone = last 32) — its cuts depend on the chunks before the boundary.  The adapter's
+loop gives `12, 12, 8, …` both times. -/
+theorem history_rule_breaks_restart_witness :
+    let p : CParams := ⟨4, 16⟩
+    let hh : Hash := fun w => (w.headD 0).toNat
+    let S : Bytes := List.replicate 24 0 ++ [3, 1, 4, 1, 5, 9, 2, 6, 5, 3, 5, 8, 9, 7, 9, 3, 2, 3, 8, 4, 6, 2, 6, 4, 3, 3, 8, 3, 2, 7, 9, 5,
+      1, 2, 3, 4, 5, 6, 7, 8, 9, 10, 11, 12, 13, 14, 15, 16, 17, 18, 19, 20, 21, 22, 23, 24]
+    p.valid ∧
+    (chunkAll p hh [S]).map (·.map List.length) = some [4, 4, 4, 4, 12, 12, 8, 4, 16, 12] ∧
+    (chunkAll p hh [S.drop 16]).map (·.map List.length) = some [12, 12, 8, 4, 16, 12] ∧
+    (chunkAllH p hh (repeatForced p) [S]).map (·.map List.length) = some [4, 4, 4, 4, 4, 4, 8, 8, 8, 4, 16, 12] ∧
+    (chunkAllH p hh (repeatForced p) [S.drop 16]).map (·.map List.length) = some [12, 12, 8, 4, 16, 12] := by
+  refine ⟨by decide, by decide +kernel, by decide +kernel, by decide +kernel, by decide +kernel⟩
 
 /-! ## alignment: why equal data must sit at equal offsets modulo the alignment -/
 
